@@ -112,10 +112,10 @@ def run(tier, replay=None):
     with ThreadPoolExecutor(max_workers=8) as ex:
         for job, out in ex.map(one, jobs):
             if "_crash" in out:
-                what = "concurrent-map-access" if "concurrent map" in out["_crash"] else "panic"
+                what = "concurrent-map-access" if "concurrent map" in out["_crash"] else ("deadlock" if "deadlock (verif watchdog)" in out["_crash"] else "panic")
                 where = "unknown"
                 for fn in ("handleGetPrompt", "handleReadResource", "handleCallTool", "handleListTools", "handleListPrompts", "handleListResources",
-                           "registerPrompt", "registerResource", "registerTool", "handleServerNotification"):
+                           "registerPrompt", "registerResource", "registerTool", "handleServerNotification", "getResources", "getPrompts", "getTools"):
                     if fn in out["_crash"]:
                         where = fn
                         break
